@@ -625,15 +625,29 @@ def apply_delta(kind, e, a, b, ontology=None):
         pb = {p['name']: p for p in b['props']}
         if [n for n in pa if n in pb] != [n for n in pb if n in pa] or list(pb)[:len([n for n in pa if n in pb])] != [n for n in pa if n in pb]:
             raise Unsupported('property order')
+        import zlib
+        # properties come and go through the methods or through the mapping interface of the event type (decided by the content
+        # of the target definition, so that a case always replays the same way)
+        by_item = zlib.crc32(json.dumps(b, sort_keys=True).encode()) % 2 == 1
         for n in pa:
             if n not in pb:
-                call(e, 'remove_property', n)
+                if by_item:
+                    del e[n]
+                    calls.append('__delitem__')
+                else:
+                    call(e, 'remove_property', n)
             else:
                 if pa[n]['objectType'] != pb[n]['objectType']:
                     raise Unsupported('object type')
                 apply_property_delta(e[n], pa[n], pb[n], call)
         for n, ps in pb.items():
-            if n not in pa:
+            if n not in pa and by_item and ontology is not None and ontology.get_object_type(ps['objectType']) is not None:
+                from edxml.ontology import EventProperty
+                e[n] = EventProperty(e, n, ontology.get_object_type(ps['objectType']), ps['free']['description'])
+                p = e[n]
+                calls.append('__setitem__')
+                apply_property_delta(p, base_prop(n, ps['objectType']), ps, call)
+            elif n not in pa:
                 p = e.create_property(n, ps['objectType'], ps['free']['description'])
                 calls.append('create_property')
                 apply_property_delta(p, base_prop(n, ps['objectType']), ps, call)
